@@ -563,6 +563,64 @@ func customC14(t *testing.T, e *mc.Explorer) *mc.ShardResult {
 		}
 	}
 	res.Extra["length_sweep_histories"] = swept
+	// ---- histories WITHOUT state merging: the breadth-first search above merges histories that lead to the same
+	// directory tree and the same answers, which is only sound if the backend object keeps nothing else in memory.
+	// Every sequence of up to four operations on one key (three on a key and a sibling in the same directory) is
+	// therefore also run as it is, on one live object.
+	seqs := 0
+	{
+		long := c15LongKey
+		type job struct {
+			backend string
+			keys    []string
+			depth   int
+		}
+		var jobs []job
+		for _, b := range []string{"fscache", "fscache-enc", "memcache"} {
+			for _, k := range []string{"a", long, c14Keys()[5]} {
+				jobs = append(jobs, job{b, []string{k}, 4})
+			}
+			jobs = append(jobs, job{b, []string{long, long + "-sibling"}, 3})
+		}
+		for ji, j := range jobs {
+			if ji%e.Shards != e.Shard {
+				continue
+			}
+			var ops []c14Op
+			for k := range j.keys {
+				ops = append(ops, c14Op{"set", k, 0}, c14Op{"set", k, 1}, c14Op{"del", k, 0})
+			}
+			if j.backend != "memcache" {
+				ops = append(ops, c14Op{"reopen", 0, 0})
+			}
+			var rec func(path []c14Op)
+			rec = func(path []c14Op) {
+				if len(path) == j.depth {
+					sc := c14Scenario{Backend: j.backend, Raw: j.keys}
+					m, _, _ := c14Run(sc, path, e.Tier)
+					seqs++
+					res.Executions++
+					res.Transitions += int64(len(path))
+					if m != "" {
+						sig := "unmerged history: " + c14Signature(sc, m)
+						if v, ok := viol[sig]; ok {
+							v.Count++
+						} else {
+							detail, _ := json.Marshal(map[string]any{"scenario": sc, "path": path})
+							viol[sig] = &mc.Violation{Property: "C14", Signature: sig, Count: 1, Shard: e.Shard, Choices: []int{},
+								Message: fmt.Sprintf("backend %s, keys %v: %s", j.backend, c14KeyNames(sc), m), Trace: []mc.Pt{{Label: "replay", Desc: string(detail)}}}
+						}
+					}
+					return
+				}
+				for _, op := range ops {
+					rec(append(append([]c14Op{}, path...), op))
+				}
+			}
+			rec(nil)
+		}
+	}
+	res.Extra["unmerged_histories"] = seqs
 	// ---- value sizes around the powers of two a chunked writer or a cipher might use (with and without the 28 bytes of
 	// nonce + tag): Set, Get, overwrite with a shorter value, Get, on the plain and the encrypted file-system backend
 	// and the memory backend
